@@ -9,6 +9,8 @@ second run that must report nothing required and issue no write.
 """
 import random
 
+import json
+
 from .. import dbrig, evocases, evorig, optrig, sigs
 from .c03 import initial_rollup, name_reuse, touches_renamed_model  # noqa
 from .c11 import dangling
@@ -281,7 +283,8 @@ def together_readded_history():
 
 def meta_indexes_twice_history():
     """Meta.indexes of one model grows in two consecutive versions (each evolution carries the complete list): a
-    direct upgrade across both ends with the last list, like every other path"""
+    direct upgrade across both ends with the last list, like every other path; the last named index covers a column that
+    already has its own db_index index (two indexes over one column are two indexes)"""
     def fld(name, t, related=None, **attrs):
         return {'name': name, 'type': t, 'attrs': attrs, 'related': related}
 
@@ -291,7 +294,7 @@ def meta_indexes_twice_history():
              'constraints': [], 'fields': [fld('id', 'AutoField', primary_key=True),
                                            fld('title', 'CharField', max_length=20, null=True),
                                            fld('year', 'IntegerField', null=True),
-                                           fld('pages', 'IntegerField', null=True)]}]}]}
+                                           fld('pages', 'IntegerField', null=True, db_index=True)]}]}]}
     t_ix = {'fields': ['title'], 'name': 'vapp_book_title_idx'}
     y_ix = {'fields': ['year'], 'name': 'vapp_book_year_idx'}
     p_ix = {'fields': ['pages'], 'name': 'vapp_book_pages_idx'}
@@ -651,6 +654,16 @@ def run(ctx):
                 if req or not diff_empty or writes:
                     report('a second run after upgrading from V%d (%s) is not a no-op: required=%s, writes=%d'
                            % (i, path, req, len(writes)))
+                # two indexes over the same columns are two indexes: the same KINDS of indexes in different numbers is a
+                # difference, too (a named Meta.indexes entry next to the column's own db_index index)
+                from collections import Counter
+                for t in fresh['schema']:
+                    cf = Counter(json.dumps(ix) for ix in fresh['schema'][t].get('indexes', []))
+                    ce = Counter(json.dumps(ix) for ix in (st['schema'].get(t) or {}).get('indexes', []))
+                    if set(cf) == set(ce) and cf != ce:
+                        k = [x for x in cf if cf[x] != ce[x]][0]
+                        report('upgrade from V%d (%s) and fresh install end in different schemas: %s has %d index(es) %s, '
+                               'the fresh install %d' % (i, path, t, ce[k], k, cf[k]))
                 sd = dbrig.schema_diff(st['schema'], fresh['schema'])
                 if sd:
                     from .c01 import classify
